@@ -1285,6 +1285,22 @@ class WorkerGateway(BaseGateway):
         item: tuple[Channel, tuple[str, str | None, str | None, dict[str, object]]],
     ) -> None:
         try:
+            self._executetask(item)
+        finally:
+            # (the attribute only exists once serve() has run)
+            complete = getattr(self, "_executetask_complete", None)
+            if complete is not None:
+                # Indicate that this task has finished executing (however it
+                # ended: normally, with an error or interrupted), meaning
+                # that there is no possibility of it triggering a deadlock
+                # for the next spawn call.
+                complete.set()
+
+    def _executetask(
+        self,
+        item: tuple[Channel, tuple[str, str | None, str | None, dict[str, object]]],
+    ) -> None:
+        try:
             channel, (source, file_name, call_name, kwargs) = item
             loc: dict[str, Any] = {"channel": channel, "__name__": "__channelexec__"}
             self._trace(f"execution starts[{channel.id}]: {repr(source)[:50]}")
@@ -1312,11 +1328,6 @@ class WorkerGateway(BaseGateway):
                 channel.close(errortext)
                 return
         channel.close()
-        if self._executetask_complete is not None:
-            # Indicate that this task has finished executing, meaning
-            # that there is no possibility of it triggering a deadlock
-            # for the next spawn call.
-            self._executetask_complete.set()
 
 
 #
